@@ -810,6 +810,47 @@ func generatorRun(res *core.Result, r *rand.Rand, n int, prefix string) {
 		res.Count("generated_identities_checked", 1)
 		res.Case(prefix+"gen:"+desc, len(ignore) > 0 || maxEasing > 0 || len(acceptable) > 1)
 	}
+	// Two requested regions of equal size, one of them swallowed whole by a wider ignored range (a local interface
+	// prefix around it): every identity must come from the other one.
+	for i := 0; i < n/4+2; i++ {
+		bits := 10 + r.IntN(5)
+		var a, b [16]byte
+		a[0], b[0] = 0xfd, 0xfd
+		a[1] = byte(r.IntN(128))
+		b[1] = a[1] ^ 0x40 // differs in a bit above every bits >= 10: disjoint, and outside the parent below
+		pa, _ := netip.AddrFrom16(a).Prefix(bits)
+		pb, _ := netip.AddrFrom16(b).Prefix(bits)
+		parent, _ := pa.Addr().Prefix(bits - 1 - r.IntN(3))
+		if parent.Overlaps(pb) {
+			continue
+		}
+		acceptable := []netip.Prefix{pa, pb}
+		if r.IntN(2) == 0 {
+			acceptable = []netip.Prefix{pb, pa}
+		}
+		ignore := []netip.Prefix{parent}
+		maxEasing := []uint64{0, 1, 50}[r.IntN(3)]
+		desc := fmt.Sprintf("GenerateRoutableAddress(acceptable=%v, ignore=%v (covers the first or second region whole), maxEasing=%d)", acceptable, ignore, maxEasing)
+		ctx, cancel := context.WithTimeout(context.Background(), 2*time.Minute)
+		var addr *m.Address
+		var err error
+		pv := vmesh.Safely(func() { addr, _, err = m.GenerateRoutableAddress(ctx, slices.Clone(acceptable), slices.Clone(ignore), maxEasing) })
+		cancel()
+		if pv != nil {
+			res.Violate("crash:generator", fmt.Sprintf("%s panicked: %v", desc, pv), map[string]any{"generator": desc})
+			return
+		}
+		if err != nil {
+			res.Count("generator_gave_up", 1)
+			continue
+		}
+		if !checkGenerated(res, addr, acceptable, ignore, desc) {
+			return
+		}
+		res.Count("generated_identities_checked", 1)
+		res.Count("generated_with_covering_ignore_range", 1)
+		res.Case(prefix+"gen-cover:"+desc, true)
+	}
 	// One caller, several calls: the same ignore list (the same slice, as a long-lived caller such as the
 	// config layer holds it) is handed to calls with different acceptable sets. The oracle judges every result
 	// against its own copy of what the caller meant to ignore.
